@@ -558,6 +558,11 @@ def factory_configurations() -> list:
         for strict_ in (False, True):
             pairs.append((V_(cls_, overrides={"a": IntValidator()}, fail_on_unknown_keys=strict_),
                           V_(cls_, overrides={"a": IntValidator(), "zz": StringValidator()}, fail_on_unknown_keys=strict_), rec_inputs))
+    from koda_validate import DictValidatorAny, KeyNotRequired
+    iv, sv = IntValidator(), StringValidator()
+    ord_inputs = [{"b": 5}, {"a": "no"}, {"a": "no", "c": 1}, {"c": "x"}, {"a": 1, "b": "s", "c": 2}, {}, {"b": 5, "c": "x"}]
+    pairs += [(DictValidatorAny({"a": iv, "b": sv, "c": iv}), DictValidatorAny({"c": iv, "b": sv, "a": iv}), ord_inputs),
+              (DictValidatorAny({"a": iv, "b": KeyNotRequired(sv), "c": iv}), DictValidatorAny({"b": KeyNotRequired(sv), "c": iv, "a": iv}), ord_inputs)]
     pairs += [(EqualsValidator(1), EqualsValidator(1.0), nums), (EqualsValidator(1), EqualsValidator(True), nums),
               (EqualsValidator(Decimal(5)), EqualsValidator(5), nums)]
     found: dict = {}
